@@ -85,6 +85,11 @@ def run(v, tier, seed, replay):
             kind = "leak" if "LeakSanitizer" in p.stderr else ("undefined-behaviour" if "runtime error:" in p.stderr else "memory-error")
             v.violation("solver/%s" % kind, "solver history under ASan rc=%s: %s" % (p.returncode, p.stderr[-1200:]), {"script": cmds})
     v.cov["solver_histories_under_asan"] = nsolver
+    # executions nobody scripted here: the repository's own 24 test programs rebuilt with hooks, heap events validated by TLC (HeapTrace)
+    import repotests
+    nval, nev = repotests.run(v, max_events=8000 if tier == "quick" else 150000)
+    v.add("traces_validated_against_impl", nval)
+    v.add("events_validated", nev)
     thrown = sum(1 for s in allr for y in s if '"out":"rt"' in y)
     v.cov["calls_ending_in_library_exception"] = thrown
     if thrown < 10:
